@@ -298,6 +298,7 @@ type MRoute struct {
 
 // PModel is what the model interpreter computes from a program.
 type PModel struct {
+	MaxChain   int // 0: requests whose chain is longer than 63 handlers are skipped; > 0: that limit instead (checks whose scripts never abort)
 	Routes     []MRoute
 	Global     []*Script
 	NotFound   []*Script
@@ -792,7 +793,11 @@ func CheckRequest(w *World, r *rux.Router, pm *PModel, method, path string, faul
 func CheckRequestState(w *World, r *rux.Router, pm *PModel, method, path string, faults ...Fault) (string, ReqInfo, *ReqState) {
 	chain, ps, res := pm.Expect(method, path)
 	info := ReqInfo{Chain: chain, Res: res}
-	if len(chain) > 63 {
+	limit := 63
+	if pm.MaxChain > 0 {
+		limit = pm.MaxChain
+	}
+	if len(chain) > limit {
 		info.Skipped = true
 		return "", info, nil
 	}
